@@ -508,13 +508,17 @@ func (f *Frame) findLoopSpec(s ast.Stmt) *LoopSpec {
 		return nil
 	}
 	text := normSpace(f.vc.srcText(f.pk, s))
+	var best *LoopSpec
 	for _, ls := range f.fi.Loops {
-		if strings.HasPrefix(text, ls.Anchor) {
-			ls.Used = true
-			return ls
+		a := normSpace(ls.Anchor)
+		if strings.HasPrefix(text, a) && (best == nil || len(a) > len(normSpace(best.Anchor))) {
+			best = ls // the longest matching anchor wins
 		}
 	}
-	return nil
+	if best != nil {
+		best.Used = true
+	}
+	return best
 }
 
 type invEval struct {
